@@ -591,7 +591,15 @@ def host_program():
         A.If([(A.Bin('>', V_('h2%'), N_(0), '%'), [pr(N_(1))])],
              [pr(N_(2))]),
         A.IfLine(V_('h2%'), [pr(N_(3))], None),
-        A.Select(V_('h2%'), [([('v', N_(1))], [pr(N_(4))])], None),
+        A.Select(V_('h2%'), [([('v', N_(1))], [
+            pr(N_(4)),
+            A.If([(A.Bin('>', V_('h2%'), N_(0), '%'), [pr(N_(6))])], None),
+            A.For(V_('hk%'), N_(1), N_(1), None, [
+                A.IfLine(V_('h2%'), [pr(N_(7))], None)]),
+            A.Do('loop_until', N_(1), [
+                A.While(A.Bin('<', V_('h3%'), N_(1), '%'),
+                        [A.Assign(V_('h3%'), N_(1))])]),
+        ])], [pr(N_(8))]),
         A.Do('loop_until', A.Bin('>', V_('h2%'), N_(2), '%'),
              [A.Assign(V_('h2%'), A.Bin('+', V_('h2%'), N_(1), '%'))]),
         A.While(A.Bin('<', V_('h2%'), N_(5), '%'),
